@@ -484,6 +484,74 @@ def zero_dim_probe(run):
                 run.fail("state-aliased-with-caller", f"get_history({key!r}, index=0) returns the stored 0-d array", ops=["h = get_history(key, index=0); h[()] = 5.0"])
 
 
+def clone_and_ragged_probe(run):
+    """(i) a manager built from an exported dictionary (StateManager.from_dict) owns its arrays: overwriting the dictionary afterwards
+    changes nothing in it; (ii) a history whose batches differ in length (a run continued with another n_particles): whatever
+    get_history / results() hand out - or refuse to - shares no memory with the committed batches"""
+    from tempest.state_manager import StateManager
+
+    def mk(sizes):
+        sm = StateManager(2)
+        for t, n in enumerate(sizes):
+            sm.update_current({"u": np.full((n, 2), 0.1 * (t + 1)), "x": np.full((n, 2), 1.0 * (t + 1)), "logl": np.arange(n, dtype=float) - t,
+                               "beta": 0.5 * t, "logz": -1.0 * t, "iter": t + 1, "calls": 10 * (t + 1)})
+            sm.commit_current_to_history()
+        return sm
+
+    def arrays_of(obj, out):
+        if isinstance(obj, np.ndarray):
+            if obj.dtype == object:
+                for e in obj.ravel():
+                    arrays_of(e, out)
+            else:
+                out.append(obj)
+        elif isinstance(obj, dict):
+            for v in obj.values():
+                arrays_of(v, out)
+        elif isinstance(obj, (list, tuple)):
+            for v in obj:
+                arrays_of(v, out)
+        return out
+
+    def internal(sm):
+        return arrays_of([sm._current, sm._history], [])
+
+    # (i)
+    src = mk([4, 4])
+    d = src.to_dict()
+    clone = StateManager.from_dict(d)
+    run.case(key=("clone", "from_dict"), nontrivial=True)
+    shared = [a for a in arrays_of(d, []) for b in internal(clone) if a.size and b.size and np.shares_memory(a, b)]
+    before = [b.copy() for b in internal(clone)]
+    for a in arrays_of(d, []):
+        if a.size:
+            a[...] = 123.0
+    changed = any(not np.array_equal(x, y) for x, y in zip(before, internal(clone)))
+    if shared or changed:
+        run.fail("state-aliased-with-caller", f"StateManager.from_dict(d) keeps {len(shared)} arrays of the caller's dictionary: overwriting d afterwards "
+                 f"{'changed' if changed else 'can change'} the new manager's state and history", ops=["d = s.to_dict()", "clone = StateManager.from_dict(d)", "d[...][:] = 123"])
+    # (ii)
+    sm = mk([4, 6])
+    for key in ("u", "x", "logl"):
+        run.case(key=("ragged", key), nontrivial=True)
+        try:
+            got = sm.get_history(key)
+        except Exception:
+            continue          # refusing is fine: nothing is handed out
+        sh = [a for a in arrays_of(got, []) for b in internal(sm) if a.size and b.size and np.shares_memory(a, b)]
+        if sh:
+            run.fail("state-aliased-with-caller", f"get_history({key!r}) on a history with batches of 4 and 6 particles hands out the committed batches themselves",
+                     ops=["commit 4 particles", "commit 6 particles", f"h = get_history({key!r}); h[0][:] = ..."])
+    try:
+        res = sm.compute_results()
+        sh = [a for a in arrays_of(res, []) for b in internal(sm) if a.size and b.size and np.shares_memory(a, b)]
+        if sh:
+            run.fail("state-aliased-with-caller", "compute_results() on a history with batches of 4 and 6 particles hands out committed batches",
+                     ops=["commit 4 particles", "commit 6 particles", "r = compute_results(); r['x'][0][:] = ..."])
+    except Exception:
+        pass
+
+
 def export_probe(run, rng):
     """Exporting (StateManager.save_state with any exclude list, Sampler-level posterior(return_logw=True) in every option
     combination) is read-only: the manager's view is the same afterwards, and arrays handed out are not internal ones."""
@@ -600,6 +668,7 @@ def main(tier, seed):
         rejected_commit_probe(run, rng)
         zero_dim_probe(run)
         export_probe(run, rng)
+        clone_and_ragged_probe(run)
     except Exception:
         import traceback
         run.broken.append(("harness-exception", traceback.format_exc()[-1500:]))
